@@ -212,6 +212,8 @@ def gen_ops(rng, prop, knobs, profile):
     else:
         # the remote object changes (possibly in length) while it is or is not cached
         weights += [(rng.choice([0, 0, 3]), "RES_UPDATE")]
+    # settings changed on the running cache through the public properties of its configuration object
+    weights += [(rng.choice([0, 0, 2, 5]), "SETCFG")]
     if knobs.get("relative_path") and knobs.get("api") == "module":
         weights += [(6, "CHDIR")]
     if knobs.get("second_cache") and knobs.get("api") == "module":
@@ -271,6 +273,14 @@ def gen_ops(rng, prop, knobs, profile):
             op["keys"] = rng.sample(range(K), min(K, rng.randint(1, 3)))
         elif kind == "CHDIR":
             op["to"] = rng.choice(["cwd2", "cwd/sub", "elsewhere"])
+        elif kind == "SETCFG":
+            op["attr"] = wchoice(rng, [(50, "allow"), (25, "parallel"), (25, "grow")]) if c19 else \
+                wchoice(rng, [(50, "parallel"), (50, "grow")])
+            if op["attr"] == "allow":
+                op["value"] = rng.random() < 0.5
+            elif op["attr"] == "grow":
+                op["by"] = rng.choice([1, 100, 1000, max(1, knobs["max_bytes"] // 2), knobs["max_bytes"], 10**6 + 7])
+                op["via"] = rng.choice(["bytes", "bytes", "gb"])
         elif kind == "EDIT_CONFIG":
             op["size"] = max(1, int(knobs["max_bytes"] * rng.choice([0.3, 0.5, 0.8, 1.5])))
         elif kind in ("RES_UPDATE", "RES_DELETE"):
